@@ -353,6 +353,7 @@ func TestC01Retransmit(t *testing.T) {
 
 		// (adopted transfers have no exchange channel to wait for: their
 		// records leaving the Persistence is the observable)
+		h.slowDrain = rapid.IntRange(0, 3).Draw(rt, "slowSteadyLinkAtTheEnd") == 0
 		h.drain(func() bool { return h.allPersistedDone() && (len(h.inherited) == 0 || h.outboundStoreEmpty()) })
 		noPanics(h)
 		h.checkWire()
